@@ -112,7 +112,11 @@ pub fn expr_args(toks: &[String], form: u64, destructive: bool, vrec: &str) -> V
             other => {
                 if let Some(k) = test_index(other) {
                     let c = TEST_LETTERS[k];
-                    match form % 3 {
+                    match if form % 11 == 10 { 3 } else { form % 3 } {
+                        // the same test with an alternative that is never true, whose operand looks like a parenthesis
+                        3 => {
+                            a.extend(["(", "-name", &format!("*{}*", c), "-o", "-name", "(", ")"].iter().map(|x| x.to_string()));
+                        }
                         0 => {
                             a.push("-name".into());
                             a.push(format!("*{}*", c));
